@@ -234,6 +234,10 @@ def extend (t : Trunk) (apply train label : Option Segment) : GraphM Trunk := do
   let l ← extendOpt t.label label
   pure ⟨a, tr, l⟩
 
+/-- `trunk.use(apply, train, label)`: a supplied segment replaces ours; an omitted one is kept as it is -/
+def use (t : Trunk) (apply train label : Option Segment) : Trunk :=
+  ⟨apply.getD t.apply, train.getD t.train, label.getD t.label⟩
+
 /-- `trunk.extend(*other)` of `Compound.compose` / `Composition.__new__` -/
 def extendTrunk (t other : Trunk) : GraphM Trunk :=
   t.extend (some other.apply) (some other.train) (some other.label)
@@ -241,6 +245,27 @@ def extendTrunk (t other : Trunk) : GraphM Trunk :=
 end Trunk
 
 /-! ### expressions -/
+
+/-- the three segments of a trunk -/
+inductive Path where
+  | apply | train | label
+  deriving DecidableEq, Repr, Inhabited
+
+/-- operators written by a user against the public composition API (`flow.Operator.compose(scope)` using
+`scope.expand()`, `flow.Worker`, `flow.Future`, `flow.Segment`, `Trunk.extend` / `Trunk.use`) the way user code does:
+* `extend a t l viaUse`: a fresh stateless 1:1 worker on every *supplied* path, `left.extend(apply=…, train=…, label=…)`
+  with the others omitted (`viaUse`: `left.use(path=left.path.extend(worker), …)` instead);
+* `labelMix tag`: labels rewritten from the train-mode features — a 2:1 worker fed from the label path and, as an
+  untrained side branch, from the tail of the train path; `left.extend(label=Segment(head, mixer))`, the train segment
+  is not supplied;
+* `monitor a`: a trained side branch (a worker trained on the train / label tails), the trunk returned as it is;
+* `tee tag`: an untrained side branch hanging on the tail of the train segment (a sink), the trunk returned as it is. -/
+inductive ApiOp where
+  | extend (app trn lab : Option Nat) (viaUse : Bool)
+  | labelMix (tag : Nat)
+  | monitor (a : Actor)
+  | tee (tag : Nat)
+  deriving Repr, Inhabited
 
 inductive Expr where
   /-- `wrap.Operator` with its `Label`, `Apply`, `Train` builders (mapper: apply = train) -/
@@ -253,6 +278,8 @@ inductive Expr where
   | stack (bases : List Expr) (nsplits : Nat) (splitter appender stacker reducer : Nat)
   /-- `left >> right` -/
   | seq (left right : Expr)
+  /-- an operator written against the public composition API -/
+  | api (op : ApiOp)
   deriving Repr, Inhabited
 
 /-! ### wrap.Operator.compose -/
@@ -324,6 +351,64 @@ def composeDebug (a t : Actor) (scope : GraphM Trunk) : GraphM Trunk := do
   let trainW ← newWorker t 1 1
   train trainW left.train.publisher left.label.publisher
   left.extend (some (.ofNode apply.uid)) none none
+
+/-! ### operators written against the public composition API -/
+
+namespace Trunk
+
+def seg (t : Trunk) : Path → Segment
+  | .apply => t.apply
+  | .train => t.train
+  | .label => t.label
+
+end Trunk
+
+/-- one path extended by a fresh stateless 1:1 worker: `left.extend(<path>=worker)` — the two other segments are
+omitted and kept as they are, tails included — or `left.use(<path>=left.<path>.extend(worker))` -/
+def apiUnary (p : Path) (viaUse : Bool) (tag : Nat) (left : Trunk) : GraphM Trunk := do
+  let w ← newWorker ⟨tag, false⟩ 1 1
+  let seg := Segment.ofNode w.uid
+  if viaUse then
+    let s ← (left.seg p).extend seg
+    match p with
+    | .apply => pure (left.use (some s) none none)
+    | .train => pure (left.use none (some s) none)
+    | .label => pure (left.use none none (some s))
+  else
+    match p with
+    | .apply => left.extend (some seg) none none
+    | .train => left.extend none (some seg) none
+    | .label => left.extend none none (some seg)
+
+def apiUnaryOpt (p : Path) (viaUse : Bool) : Option Nat → Trunk → GraphM Trunk
+  | none, left => pure left
+  | some tag, left => apiUnary p viaUse tag left
+
+/-- (the workers of one `extend(apply=…, train=…, label=…)` call are created and subscribed path by path: the order in
+which one statement draws its uids is not observable) -/
+def composeApi : ApiOp → GraphM Trunk → GraphM Trunk
+  | .extend oa ot ol viaUse, scope => do
+    let left ← scope
+    let l1 ← apiUnaryOpt .apply viaUse oa left
+    let l2 ← apiUnaryOpt .train viaUse ot l1
+    apiUnaryOpt .label viaUse ol l2
+  | .labelMix tag, scope => do
+    let left ← scope
+    let head ← newFuture
+    let mixer ← newWorker ⟨tag, false⟩ 2 1
+    subscribe mixer.uid 0 ⟨head, 0⟩
+    subscribe mixer.uid 1 left.train.publisher
+    left.extend none none (some ⟨head, mixer.uid⟩)
+  | .monitor a, scope => do
+    let left ← scope
+    let w ← newWorker a 1 1
+    train w left.train.publisher left.label.publisher
+    pure left
+  | .tee tag, scope => do
+    let left ← scope
+    let w ← newWorker ⟨tag, false⟩ 1 1
+    subscribe w.uid 0 left.train.publisher
+    pure left
 
 /-! ### Segment.copy (Traversal.copy) -/
 
@@ -477,6 +562,7 @@ mutual
     | .mapreduce ms r => composeMapReduce ms r Trunk.new
     | .debug a t => composeDebug a t Trunk.new
     | .stack bases n s a k r => composeStack (expandAll bases) n s a k r Trunk.new
+    | .api op => composeApi op Trunk.new
 
   /-- `composable.compose(scope)`; `scope` is the unexpanded left side, passed as its `expand` action so that an
   operator can expand it as many times as it needs.
@@ -490,6 +576,7 @@ mutual
     | .mapreduce ms r, scope => composeMapReduce ms r scope
     | .debug a t, scope => composeDebug a t scope
     | .stack bases n s a k r, scope => composeStack (expandAll bases) n s a k r scope
+    | .api op, scope => composeApi op scope
 
   def expandAll : List Expr → List (GraphM Trunk)
     | [] => []
